@@ -192,7 +192,11 @@ func (fl *flattener) helperOf(c *ast.CallExpr) *Func {
 		if !ok {
 			return nil
 		}
-		if s := fl.info.Selections[sel]; s == nil || s.Kind() != types.MethodVal || len(s.Index()) != 1 {
+		// a static method call, directly or promoted through embedded fields (the receiver is then bound to
+		// the outer value: field selections on it keep their own recorded selections)
+		if s := fl.info.Selections[sel]; s == nil || s.Kind() != types.MethodVal {
+			return nil
+		} else if _, isIface := s.Recv().Underlying().(*types.Interface); isIface {
 			return nil
 		}
 	}
